@@ -28,6 +28,8 @@ func showForErr(x interface{}) string {
 		return s + "]"
 	case error:
 		return v.Error()
+	case string, bool, int, int32, int64, uint64, float64:
+		return fmt.Sprintf("%v", v)
 	}
 	return fmt.Sprintf("%T", x)
 }
